@@ -52,6 +52,36 @@ def pool_trace():
     return json.loads(L.detsim_trace_json().decode())
 
 
+def detect_threshold():
+    """T = the largest length that dispatchTask still runs inline although a pool is installed (200 in the pinned tree:
+    an internal constant, which the lengths of the generated runs are placed around).  Measured, not assumed: a tree
+    that moves the threshold keeps its runs around the new one.  Deterministic for a given build."""
+    cfg = {"W": 2, "part": 0, "assign": 0, "order": 0, "empty": 0.0, "sub": 1, "inline": 0, "cancel": 0}
+
+    def dispatched(n):
+        a = imath.IntArray(n)
+        pool_on(cfg)
+        try:
+            a + a
+        finally:
+            pool_off()
+        return bool(pool_trace())
+    lo, hi = 1, 1 << 15
+    if not dispatched(hi):
+        return 200          # never dispatched: the runs will say so (runs_dispatched = 0)
+    while lo < hi:
+        mid = (lo + hi) // 2
+        if dispatched(mid):
+            hi = mid
+        else:
+            lo = mid + 1
+    L.detsim_reset_trace()
+    return lo - 1
+
+
+T = detect_threshold()
+
+
 # ---------------------------------------------------------------------------------------------------
 # catalogue: every overload with a 1-D array among its arguments or as its result
 # ---------------------------------------------------------------------------------------------------
@@ -126,8 +156,8 @@ def gen_plan(seed, idx):
     ei = (idx // 2) % N if idx % 2 == 0 else r.below(N)
     e = CAT[ei]
     n = r.weighted([(70, "near"), (8, "thr"), (10, "mid"), (3, "big"), (9, "small")])
-    n = {"near": lambda: r.range(201, 264), "thr": lambda: r.choice([199, 200, 201]), "mid": lambda: r.range(265, 600),
-         "big": lambda: r.range(1000, 3000), "small": lambda: r.range(1, 50)}[n]()
+    n = {"near": lambda: r.range(T + 1, T + 64), "thr": lambda: r.choice([T - 1, T, T + 1]), "mid": lambda: r.range(T + 65, T + 400),
+         "big": lambda: r.range(5 * T, 15 * T), "small": lambda: r.range(1, 50)}[n]()
     mode = r.weighted([(40, "bit"), (48, "scaled"), (12, "zeros")])
     if DIVLIKE.search(e["name"]):
         mode = "nz"
@@ -192,7 +222,7 @@ def gen_plan(seed, idx):
     pool = {"W": W, "part": r.below(8), "assign": r.below(6), "order": r.below(6),
             "empty": r.choice([0.0, 0.0, 0.1, 0.3]), "sub": r.next() >> 1,
             "inline": r.weighted([(90, 0), (4, -1), (6, 2)]), "cancel": r.below(2)}
-    o2 = "all" if (n <= 300 and r.chance(0.15)) else r.range(0, 1 << 30)
+    o2 = "all" if (n <= T + 100 and r.chance(0.15)) else r.range(0, 1 << 30)
     # integer vectors times a projective matrix divide by an integer w that truncates to 0 -> SIGFPE with or
     # without a pool (outside C20): keep matrices affine whenever an integer-based operand is involved
     affine = any(re.match(r"V\d(c|s|i|i64)(Array)?$", t) for t in e["args"]) and any(t.startswith("M") for t in e["args"])
@@ -858,7 +888,7 @@ def execute(plan, explicit=None):
         sizes = [s[1] - s[0] for s in real]
         if sizes and max(sizes) > 8 * max(1, min(sizes)):
             fired["fault.uneven"] = fired.get("fault.uneven", 0) + 1
-    if plan["n"] <= 200 and not trace:
+    if plan["n"] <= T and not trace:
         fired["probe.below_threshold_inline"] = 1
     kinds = [a.get("kind") for a in plan["args"]]
     if kinds.count("masked") >= 2:
@@ -925,7 +955,8 @@ def batch():
                 out.write("END %d %s %s\n" % (idx, res["verdict"], json.dumps({"signature": res["signature"], "detail": res["detail"]})))
             else:
                 out.write("END %d ok %s\n" % (idx, res.get("hash")))
-        out.write("STATS %d %s\n" % (lo, json.dumps({"agg": agg, "sched": sched, "tasks": newtasks, "hash": chunk_hash.hexdigest(), "entries": entries})))
+        out.write("STATS %d %s\n" % (lo, json.dumps({"agg": agg, "sched": sched, "tasks": newtasks, "hash": chunk_hash.hexdigest(), "entries": entries,
+                                                      "sets": {"dispatch_threshold": [T]}})))
         out.write("DONE %d\n" % lo)
         out.flush()
 
